@@ -1,6 +1,7 @@
 (* C10/Properties.v — property theorems only. Each is closed by a lemma of C10/Proofs.v.
    H is an arbitrary digest function (algorithm -> data -> digest); injectivity is assumed only where stated. *)
-From Relic Require Import Base.Prelude Generated.C10_gen C10.Model C10.Proofs.
+From Coq Require Import String.
+From Relic Require Import Base.Prelude Generated.C10_gen C10.ChainIR C10.Model C10.Proofs C10.Chain C10.ChainProofs.
 
 (* ---------------------------------------------------------------- signing side, RFC 3161 *)
 
@@ -115,6 +116,96 @@ Theorem expired_needs_timestamp : forall H now s,
     chain_ok (st_cert st) (st_time st) = true /\ c_ts_eku (st_cert st) = true.
 Proof. exact C10.Proofs.expired_needs_timestamp. Qed.
 
+(* ---------------------------------------------------------------- verification histories within one process
+   The three VerifyChain functions are the programs vc7_prog / vc9cs_prog / vc9ts_prog that srcgen translated from the
+   Go source; verify_seq threads the process state (package-level memo tables) through a list of verifications. *)
+
+(* 10. The generated programs neither read nor write process state and contain nothing the translator did not
+       understand (re-computed on every run from the source). *)
+Theorem programs_stateless : stateless vc7_prog && stateless vc9cs_prog && stateless vc9ts_prog = true.
+Proof. exact C10.ChainProofs.programs_stateless. Qed.
+
+(* 11. Any program of the language that passes that check ignores the process state, whatever its callees are, as long
+       as they do too (the generic half of 12; proved by induction on programs). *)
+Theorem exec_stateless : forall callf,
+  (forall f, sigma_indep (callf f)) ->
+  forall p, stateless p = true ->
+  forall e r s, exec callf p e r s = (fst (exec callf p e r []), s).
+Proof. exact C10.ChainProofs.exec_stateless. Qed.
+
+(* 12. For EVERY sequence of verifications in one process, from every initial process state: each verdict equals the
+       verdict of the same single verification done first in a fresh process, and the state is left untouched. *)
+Theorem history_independent : forall h s, verify_seq s h = (map fresh h, s).
+Proof. exact C10.ChainProofs.history_independent. Qed.
+Theorem history_independent_nth : forall h1 c h2 s,
+  nth_error (fst (verify_seq s (h1 ++ c :: h2))) (length h1) = Some (fresh c).
+Proof. exact C10.ChainProofs.history_independent_nth. Qed.
+
+(* 13. That verdict is the specification's: a function of (signature, countersignature, trust store, usage, attested
+       time or wall clock) only — whenever the attested time is not Go's zero time (see zero_time_judged_now_refuted). *)
+Theorem fresh_is_spec : forall c,
+  (forall cs, v_cs c = Some cs -> cs_time cs <> 0) ->
+  is_ok (fresh c) = spec_chain_accept c.
+Proof. exact C10.ChainProofs.fresh_is_spec. Qed.
+Theorem fresh_never_panics : forall c x, fresh c <> Panic x.
+Proof. exact C10.ChainProofs.fresh_never_panics. Qed.
+
+(* 14. The property at every position of every history: an expired signer certificate is accepted only with a
+       countersignature attested within its lifetime whose authority chain is valid for timeStamping at that time;
+       the authority's own certificate is judged at the attested time as well.  No side condition. *)
+Theorem seq_expired_needs_timestamp : forall h s i c,
+  nth_error h i = Some c ->
+  nth_error (fst (verify_seq s h)) i = Some (Ok tt) ->
+  x_na (o_leaf (v_sig c)) < v_now c ->
+  exists cs, v_cs c = Some cs /\ cs_time cs <> 0 /\
+    win (o_leaf (v_sig c)) (cs_time cs) = true /\
+    path_ok (o_leaf (cs_sig cs)) (v_extra c ++ o_inter (cs_sig cs)) (p_roots (v_roots c)) (cs_time cs) [8] = true /\
+    path_ok (o_leaf (v_sig c)) (v_extra c ++ o_inter (v_sig c)) (p_roots (v_roots c)) (cs_time cs) [v_usage c] = true.
+Proof. exact C10.ChainProofs.seq_expired_needs_timestamp. Qed.
+Theorem seq_tsa_judged_at_attested_time : forall h s i c cs,
+  nth_error h i = Some c ->
+  nth_error (fst (verify_seq s h)) i = Some (Ok tt) ->
+  v_cs c = Some cs -> cs_time cs <> 0 ->
+  win (o_leaf (cs_sig cs)) (cs_time cs) = true /\ eku_ok 8 (o_leaf (cs_sig cs)) = true.
+Proof. exact C10.ChainProofs.seq_tsa_judged_at_attested_time. Qed.
+
+(* 15. The package-level mutable state of lib/pkcs7, lib/pkcs9, lib/x509tools is exactly the reviewed list, and the
+       functions reachable from the verification entry points touch none of it. *)
+Theorem state_inventory_reviewed :
+  mutable_state_pkcs7 = reviewed_state_pkcs7 /\ mutable_state_pkcs9 = reviewed_state_pkcs9 /\
+  mutable_state_x509tools = reviewed_state_x509tools.
+Proof. exact C10.ChainProofs.state_inventory_reviewed. Qed.
+Theorem verify_path_touches_no_state : verify_path_state = reviewed_path_state.
+Proof. exact C10.ChainProofs.verify_path_touches_no_state. Qed.
+
+(* 16. The history model agrees with the single-verification model (Model.verify_chain, theorems 8 and 9) on
+       directly issued certificates. *)
+Theorem fresh_refines_verify_chain : forall c,
+  v_extra c = [] -> o_inter (v_sig c) = [] -> (forall cs, v_cs c = Some cs -> o_inter (cs_sig cs) = []) ->
+  is_ok (fresh c) =
+  is_ok (verify_chain (v_now c) (abs_cert (o_leaf (v_sig c)) (p_roots (v_roots c)) [v_usage c])
+           (match v_cs c with
+            | Some cs => Some (cs_time cs, abs_cert (o_leaf (cs_sig cs)) (p_roots (v_roots c)) [8])
+            | None => None
+            end)).
+Proof. exact C10.ChainProofs.fresh_refines_verify_chain. Qed.
+
+(* 17. Sensitivity of the analysis: the program of a VerifyChain that memoises accepted (trust store, usage, leaf)
+       triples without the judgement time is NOT history independent — after one in-lifetime timestamp the expired
+       certificate is accepted with no timestamp and with a timestamp from after its expiry. *)
+Theorem timeblind_memo_refuted :
+  exists good bad1 bad2,
+    let '(v1, s1) := verify_step_memo [] good in
+    let '(v2, s2) := verify_step_memo s1 bad1 in
+    let '(v3, _) := verify_step_memo s2 bad2 in
+    v1 = Ok tt /\ v2 = Ok tt /\ v3 = Ok tt /\
+    fst (verify_step_memo [] bad1) = Err E_CHAIN /\ fst (verify_step_memo [] bad2) = Err E_CHAIN /\
+    spec_chain_accept bad1 = false /\ spec_chain_accept bad2 = false /\
+    x_na (o_leaf (v_sig bad1)) < v_now bad1.
+Proof. exact C10.ChainProofs.timeblind_memo_refuted. Qed.
+Example timeblind_memo_is_flagged : stateless memo7_timeblind = false.
+Proof. reflexivity. Qed.
+
 (* ---------------------------------------------------------------- where the code as it exists violates the statement *)
 Theorem legacy_no_failover_refuted :
   exists q rs good, q_legacy q = true /\
@@ -167,3 +258,26 @@ Example missing_nonce_fails_over :
 Proof. vm_compute. reflexivity. Qed.
 Example hsym_injective : forall a x y, Hsym a x = Hsym a y -> x = y.
 Proof. intros a x y E. inversion E. reflexivity. Qed.
+
+(* a history over one leaf certificate, one trust-store object and one usage: accepted with an in-lifetime timestamp,
+   then without timestamp, after expiry, before notBefore, at notAfter exactly, one second later — and the reverse *)
+Example history_example :
+  let h := [w_call (Some 150); w_call None; w_call (Some 250); w_call (Some 50); w_call (Some 200); w_call (Some 201)] in
+  fst (verify_seq [] h) = [Ok tt; Err E_CHAIN; Err E_CHAIN; Err E_CHAIN; Ok tt; Err E_CHAIN] /\
+  fst (verify_seq [] (rev h)) = rev [Ok tt; Err E_CHAIN; Err E_CHAIN; Err E_CHAIN; Ok tt; Err E_CHAIN] /\
+  map spec_chain_accept h = [true; false; false; false; true; false].
+Proof. vm_compute. auto. Qed.
+(* the authority's certificate outside its own lifetime at the attested time: rejected as a timestamp failure *)
+Example tsa_window_example :
+  let tsa := mkX 20 120 180 w_root [8] in
+  let c t := mkCall w_pool [] 0 300 (mkSobj w_leaf []) (Some (mkCs (mkSobj tsa []) t)) (fun _ => false) in
+  fst (verify_seq [] [c 150; c 190; c 110; c 180; c 181]) = [Ok tt; Err E_CHAIN_TSA; Err E_CHAIN_TSA; Ok tt; Err E_CHAIN_TSA].
+Proof. vm_compute. reflexivity. Qed.
+(* a path through a bundled intermediate, a second trust-store object, and a usage the leaf does not have *)
+Example intermediate_and_pool_example :
+  let ica := mkX 5 0 1000 w_root [] in
+  let leaf := mkX 11 100 200 5 [3] in
+  let c (p : pool) (u : Z) (inter : list xcert) := mkCall p [] u 150 (mkSobj leaf inter) None (fun _ => false) in
+  fst (verify_seq [] [c w_pool 0 [ica]; c w_pool 0 []; c (mkPool 78 [2]) 0 [ica]; c w_pool 1 [ica]; c w_pool 3 [ica]]) =
+  [Ok tt; Err E_CHAIN; Err E_CHAIN; Err E_CHAIN; Ok tt].
+Proof. vm_compute. reflexivity. Qed.
